@@ -1,19 +1,44 @@
 (* PropsC04.v — C04: a successful Unpack returns only values that satisfy every declared
    validator.  Statements only; proofs are in ProofsReify.v.
 
-   PARTIAL.  Proved: for EVERY flat struct type (fields of primitive kinds, any config and
-   validate tags without inline), every pre-filled value and every configuration, after a
-   successful Unpack each exported, non-ignored field of the result satisfies every validator of
-   its tag - whether its value was converted from a setting or was there before; the soundness
-   of a validator run (success means every validator accepted, a failing validator is never
-   masked); the meaning of the individual validators on integers and strings.  NOT proved: the
-   same statement through nested structs, pointers, collections and inline fields (the model applies an
-   inline field's validate tag since the F37 repair); it is decided by the correspondence run, where
-   prop_holds re-validates the ENTIRE value the implementation returned with rec_validate.
+   PARTIAL.  Proved: for EVERY struct type built from primitive fields and struct fields to any
+   depth (any names, ignore tags and unexported fields anywhere, any validate tags on the primitive
+   fields), every pre-filled value and every configuration, the result of a successful Unpack
+   passes the deep re-validation rec_validate - the function the correspondence check applies to
+   what the implementation returned: each exported, non-ignored primitive field at each depth
+   satisfies every validator of its tag, whether its value was converted from a setting or was
+   there before (c04_nested_struct_result_is_valid; the flat case with the per-field reading is
+   c04_flat_struct_result_is_valid_partial); the soundness of a validator run (success means
+   every validator accepted, a failing validator is never masked); the meaning of the individual
+   validators on integers and strings.  NOT proved: the same statement through pointers,
+   collections and inline fields (the model applies an inline field's validate tag since the F37
+   repair); it is decided by the correspondence run, where prop_holds re-validates the ENTIRE
+   value the implementation returned with rec_validate.
    Not modelled: Validate() methods and InitDefaults (exercised by the CHooked cases of the
-   stream on the implementation only). *)
-From Ucfg Require Import Base ParseInt Consts Field Tree PathOps Merge OTree F64 Conv Reify ProofsReify ProofsValid.
+   stream on the implementation only: vRange/vOuter with Validate hooks, vInit with InitDefaults
+   on primitive types under validate tags). *)
+From Ucfg Require Import Base ParseInt Consts Field Tree PathOps Merge OTree F64 Conv Reify ProofsReify ProofsValid ProofsValidNested.
 Local Open Scope Z_scope.
+
+Theorem c04_nested_struct_result_is_valid : forall f o fs vs cfg g,
+  Forall plain_field fs ->
+  reify_struct f o (TStruct fs) (GStructV vs) cfg = Ok g ->
+  rec_validate (r_vo o) (TStruct fs) g [] = Ok tt.
+Proof. exact nested_struct_validated. Qed.
+Print Assumptions c04_nested_struct_result_is_valid.
+
+Theorem c04_nested_struct_example :
+  let o := {| r_p := {| p_sep := "."; p_maxIdx := 1024; p_numKeys := false; p_escape := false |}; r_h := 0%N;
+              r_vo := {| vo_dur := fun _ => None |}; r_ft := [] |} in
+  let inner := TStruct [("Port", "port", "min=1,max=65535", TPrim (KInt 64)); ("Name", "", "nonzero", TPrim KString)] in
+  let t := [("Srv", "srv", "", inner); ("Retries", "", "positive", TPrim (KInt 64)); ("skip", "", "min=99", TPrim (KInt 64))] in
+  Forall plain_field t /\
+  reify_struct 8 o (TStruct t) (GStructV [GStructV [GP (CI 0); GP (CS "n")]; GP (CI 3); GP (CI 0)])
+               (VSub [("srv", ("srv", VSub [("port", ("port", VUint 8080))] None))] None)
+  = Ok (GStructV [GStructV [GP (CI 8080); GP (CS "n")]; GP (CI 3); GP (CI 0)])
+  /\ (exists r p, reify_struct 8 o (TStruct t) (GStructV [GStructV [GP (CI 0); GP (CS "n")]; GP (CI 3); GP (CI 0)]) (VSub [] None) = Err r p).
+Proof. exact nested_validated_example. Qed.
+Print Assumptions c04_nested_struct_example.
 
 Theorem c04_flat_struct_result_is_valid_partial : forall f2 o fs vs cfg g,
   Forall prim_field fs -> List.length vs = List.length fs ->
